@@ -128,7 +128,7 @@ _ALLOC = {}
 
 
 def post_alloc_var(snap, result, self, hint=None):
-  seen = _ALLOC.setdefault(('v', id(self)), set())
+  seen = self.__dict__.setdefault('_verif_seen_vars', set())   # per allocator object (not id(): ids are recycled)
   assert result not in seen, 'AllocateVar never repeats a name'
   seen.add(result)
 
@@ -222,9 +222,26 @@ def post_inline(snap, result, rule, names_allocator):
 
 
 # ------------------------------------------------------------------ DisambiguateCombineVariables
+def _all_vars(tree, acc):
+  acc |= set(tree['variables'])
+  for t in tree['subtrees']:
+    _all_vars(t, acc)
+  return acc
+
+
+def pre_disambiguate(rule, names_allocator):
+  import compiler.rule_translate as rt_
+  return {'vars': _all_vars(rt_.GetTreeOfCombines(rule), set())}
+
+
 def post_disambiguate(snap, result, rule, names_allocator):
   import compiler.rule_translate as rt_
   tree = rt_.GetTreeOfCombines(rule)
+  # disambiguated names are unique across the whole compilation (rules get injected into each other)
+  fresh = {v for v in _all_vars(tree, set()) - snap['vars'] if '# disambiguated with' in v}
+  used = names_allocator.__dict__.setdefault('_verif_seen_dis', set())
+  assert not (fresh & used), 'a disambiguated combine variable name is never reused in another rule (%r)' % sorted(fresh & used)[:2]
+  used |= fresh
   seen = {}
 
   def walk(t, outer, path):
@@ -302,8 +319,9 @@ MONITORS = [
   Monitor(RT + ':InlinePredicateValues', ['C11', 'C01'],
           ['every functional call in an expression becomes a fresh variable + one conjunct binding logica_value'],
           pre_inline, post_inline),
-  Monitor(RT + ':DisambiguateCombineVariables', ['C02'],
-          ['variables first mentioned in different combines get distinct names'], None, post_disambiguate),
+  Monitor(RT + ':DisambiguateCombineVariables', ['C02', 'C07', 'C08'],
+          ['variables first mentioned in different combines get distinct names',
+           'disambiguated names are unique across the compilation'], pre_disambiguate, post_disambiguate),
   Monitor(RT + ':ExtractRuleStructure', ['C02', 'C19'],
           ['aggregation implies distinct', 'distinct_vars = sorted(select keys - aggregated)'], None, post_extract),
   Monitor(UN + ':SubqueryTranslator.TranslateTable', ['C08', 'C14'],
